@@ -8,12 +8,20 @@
 //!   radii 0.3, 0.75, 1.2, 1.5, 2.1, 2.5 (never a distance that occurs exactly: kiddo's behaviour ON the boundary is
 //!   not pinned) and 0 (soundness only). PartialKdTree over: every 2nd index, every 3rd index in descending order, a
 //!   permuted full-length list, the reversed full list, one index.
+//! * within(r) at EXACT ties (wave 3): the 7x7, 3x3 and 5x5x2 unit grids queried at every data point with r in
+//!   {1, 2, 5} / {1, 2} / {1, 2, 3} (3-4-5 and 1-2-2 triples), KdTree and PartialKdTree over the 5 index lists: the
+//!   answer is the open ball -- brute force d < r, a point at distance exactly r is NOT reported (this is what the
+//!   unchanged KdTree::within answers on all of these inputs).
 //! * sample_poisson_disk: the same clouds, working lists: all in order, reversed, permuted, every 2nd, a list that
 //!   names an index twice; radii 0.5, 1.2, 1.5, 2.1.
 //! * hulls: 3x3 grid, scattered integer points (with interior, collinear and duplicated points), convex and non-convex
-//!   simple polygons in both orientations.
+//!   simple polygons in both orientations; point_order_direction additionally on 6 outlines whose hull has exactly 3
+//!   (triangle, three-pointed star), 4 (square, dented square) and 5 (pentagon, L-shape) vertices, for every rotation
+//!   of the start vertex and both orientations (hull index lists starting on and off their lowest index).
 //! * mesh sampling: unit box, 1x2x3 box, three separate triangles, and the same three with an exactly zero-area sliver
-//!   face in the middle / at the end of the face list.
+//!   face in the middle / at the end of the face list; sample_dense / sample_poisson additionally on 4 meshes holding
+//!   a sliver face of POSITIVE area but without a computable normal (|ab x ac| = 2^-54 <= f64::EPSILON) placed first,
+//!   second, third (twice, both windings) and fourth among faces with normals +z, +x, +y, -z.
 //! * ball pivoting: 12 points on a circle of radius 5 (ball radius 2), plus one extra point reached after a pivot of
 //!   0.05, 1e-2 and 3e-4 rad; start on an index with a direction / on the convex hull.
 use super::{close, Report};
@@ -76,6 +84,38 @@ fn check_search<const D: usize, T: KdTreeSearch<D>>(r: &mut Report, tag: &str, n
             }
         }
     }
+}
+
+/// within(r) for radii that occur EXACTLY as a distance (integer grids, integer radii): the query is the open ball
+/// d < r, i.e. what the unchanged KdTree::within (kiddo `within` on squared distances) answers -- a point at distance
+/// exactly r is not reported.
+fn check_ties<const D: usize, T: KdTreeSearch<D>>(r: &mut Report, name: &str, tree: &T, all: &[Point<f64, D>], cand: &[usize], queries: &[Point<f64, D>], radii: &[f64]) -> usize {
+    let mut ties = 0;
+    for q in queries.iter() {
+        for &rad in radii.iter() {
+            r.case();
+            let res = tree.within(q, rad);
+            let dw = || format!("{}: within({}, {}) = {:?}", name, show(q), rad, res);
+            let got: BTreeSet<usize> = res.iter().map(|x| x.0).collect();
+            // every distance here is the square root of a small integer: d < r, d == r, d > r are decided exactly
+            let want: BTreeSet<usize> = cand.iter().copied().filter(|&i| d(&all[i], q) < rad).collect();
+            ties += cand.iter().filter(|&&i| d(&all[i], q) == rad).count();
+            r.check(res.iter().all(|x| x.1 < rad), "within at exact ties: a reported distance is < r (a point exactly on the radius is not reported)", dw);
+            r.check(got == want && got.len() == res.len(), "within at exact ties: agrees with brute force d < r", || format!("{} expected {:?}", dw(), want));
+            r.check(res.iter().all(|x| x.0 < all.len() && d(&all[x.0], q) == x.1), "within at exact ties: each reported distance is the distance to the reported point", dw);
+        }
+    }
+    ties
+}
+fn tie_checks<const D: usize>(r: &mut Report, cname: &str, pts: &[Point<f64, D>], radii: &[f64]) {
+    let n = pts.len();
+    let all: Vec<usize> = (0..n).collect();
+    let mut ties = check_ties(r, &format!("KdTree over {}", cname), &KdTree::new(pts), pts, &all, pts, radii);
+    for (lname, list) in index_lists(n) {
+        let pt = PartialKdTree::new(pts, &list);
+        ties += check_ties(r, &format!("PartialKdTree over {} / {} {:?}", cname, lname, if list.len() <= 12 { list.clone() } else { list[..12].to_vec() }), &pt, pts, &list, pts, radii);
+    }
+    r.check(ties > 0, "input space: the tie inputs contain points exactly on the radius", || format!("{}: no exact tie", cname));
 }
 
 fn index_lists(n: usize) -> Vec<(&'static str, Vec<usize>)> {
@@ -201,6 +241,28 @@ fn direction_checks(r: &mut Report, name: &str, poly: &[Point2]) {
     }
 }
 
+/// outlines whose hull has exactly `hull_n` vertices: every rotation of the start vertex, both orientations
+fn direction_rotation_checks(r: &mut Report, name: &str, poly: &[Point2], hull_n: usize) {
+    let n = poly.len();
+    let mut starts = BTreeSet::new();
+    for rev in [false, true] {
+        for rot in 0..n {
+            r.case();
+            let mut p: Vec<Point2> = (0..n).map(|k| poly[(k + rot) % n]).collect();
+            if rev { p.reverse(); }
+            let area = signed_area(&p);
+            let hull = convex_hull_2d(&p);
+            let dsc = || format!("{} started at vertex {}{}: {:?}, hull {:?}, signed area {}", name, rot, if rev { ", reversed" } else { "" }, p.iter().map(|q| (q.x, q.y)).collect::<Vec<_>>(), hull, area);
+            r.check(hull.len() == hull_n, "input space: the hull of the outline has the stated number of vertices", dsc);
+            if !hull.is_empty() { starts.insert((area > 0.0, hull[0] == *hull.iter().min().unwrap())); }
+            let got = point_order_direction(&p);
+            r.check(matches!(got, AngleDir::Ccw) == (area > 0.0), "point_order_direction matches the sign of the signed area (every start vertex, both orientations)", || format!("{}: got {:?}", dsc(), got));
+        }
+    }
+    // among the counter-clockwise rotations the hull index list starts on its lowest index for some and elsewhere for others
+    r.check(starts.contains(&(true, true)) && starts.contains(&(true, false)) && starts.iter().any(|s| !s.0), "input space: counter-clockwise outlines whose hull index list starts on and off its lowest index, and clockwise ones, occur", || format!("{}: {:?}", name, starts));
+}
+
 // ------------------------------------------------------------------------------------------------ mesh sampling
 fn tri_of(m: &Mesh, f: usize) -> (Point3, Point3, Point3) {
     let t = m.faces()[f];
@@ -255,7 +317,55 @@ fn sampling_meshes() -> Vec<(&'static str, Mesh, bool)> {
     ]
 }
 
+/// meshes with a sliver face of POSITIVE area (parry Triangle::area, Kahan's formula) but without a computable normal
+/// (|ab x ac| = 2^-54 <= f64::EPSILON), placed away from the other faces and before faces of a different orientation
+fn tiny_sliver_meshes() -> Vec<(&'static str, Mesh, usize)> {
+    let e = (2.0_f64).powi(-27);
+    let v = vec![
+        Point3::new(0.0, 0.0, 0.0), Point3::new(1.0, 0.0, 0.0), Point3::new(0.0, 1.0, 0.0),       // z = 0, normal +z
+        Point3::new(8.0, 8.0, 8.0), Point3::new(8.0 + e, 8.0, 8.0), Point3::new(8.0, 8.0 + e, 8.0), // the sliver (edge 2^-27)
+        Point3::new(5.0, 0.0, 0.0), Point3::new(5.0, 2.0, 0.0), Point3::new(5.0, 0.0, 2.0),       // x = 5, normal +x
+        Point3::new(0.0, -3.0, 0.0), Point3::new(0.0, -3.0, 2.0), Point3::new(1.0, -3.0, 0.0),    // y = -3, normal +y
+        Point3::new(0.0, 0.0, 4.0), Point3::new(0.0, 2.0, 4.0), Point3::new(2.0, 0.0, 4.0),       // z = 4, normal -z
+    ];
+    vec![
+        ("sliver (positive area, no normal) first, then faces with normals +z, +x, +y, -z", Mesh::new(v.clone(), vec![[3, 4, 5], [0, 1, 2], [6, 7, 8], [9, 10, 11], [12, 13, 14]], false), 0),
+        ("faces +z, sliver (positive area, no normal), +x, +y, -z", Mesh::new(v.clone(), vec![[0, 1, 2], [3, 4, 5], [6, 7, 8], [9, 10, 11], [12, 13, 14]], false), 1),
+        ("faces +z, +x, sliver (positive area, no normal), sliver reversed, +y, -z", Mesh::new(v.clone(), vec![[0, 1, 2], [6, 7, 8], [3, 4, 5], [3, 5, 4], [9, 10, 11], [12, 13, 14]], false), 2),
+        ("faces +z, +x, +y, sliver (positive area, no normal), -z", Mesh::new(v, vec![[0, 1, 2], [6, 7, 8], [9, 10, 11], [3, 4, 5], [12, 13, 14]], false), 3),
+    ]
+}
+
+fn tiny_sliver_checks(r: &mut Report) {
+    for (name, m, at) in tiny_sliver_meshes().iter() {
+        r.case();
+        let t = m.tri_mesh().triangle(*at as u32);
+        r.check(t.area() > 0.0 && t.normal().is_none(), "input space: the sliver face has positive area and no computable normal", || format!("{}: area {:e}, normal {:?}", name, t.area(), t.normal()));
+        let proper = m.faces().len() - (0..m.faces().len()).filter(|&f| m.tri_mesh().triangle(f as u32).normal().is_none()).count();
+        for spacing in [0.3, 0.45, 4.0] {
+            r.case();
+            let dd = || format!("{}: sample_dense({})", name, spacing);
+            match catch_unwind(AssertUnwindSafe(|| m.sample_dense(spacing))) {
+                Err(_) => r.check(false, "sample_dense does not panic on a mesh with a sliver face", dd),
+                Ok(s) => {
+                    let hits = check_samples(r, m, &s, "sample_dense", dd);
+                    r.check(hits.iter().filter(|&&h| h > 0).count() == proper, "sample_dense: every face with a normal is sampled", || format!("{} hits per face {:?}", dd(), hits));
+                }
+            }
+        }
+        for radius in [0.4, 0.9] {
+            r.case();
+            let dp = || format!("{}: sample_poisson({})", name, radius);
+            match catch_unwind(AssertUnwindSafe(|| m.sample_poisson(radius))) {
+                Err(_) => r.check(false, "sample_poisson does not panic on a mesh with a sliver face", dp),
+                Ok(s) => { r.check(!s.is_empty(), "sample_poisson returns samples", dp); check_samples(r, m, &s, "sample_poisson", dp); }
+            }
+        }
+    }
+}
+
 fn sampling_checks(r: &mut Report) {
+    tiny_sliver_checks(r);
     for (name, m, has_sliver) in sampling_meshes().iter() {
         let nf = m.faces().len();
         // uniform
@@ -359,7 +469,7 @@ fn pivot_checks(r: &mut Report) {
 }
 
 pub fn run() -> Option<Report> {
-    let mut r = Report::new("k-d trees: 7x7 2D grid + 4 duplicates, 5x5x2 3D grid + 3 duplicates, and (tagged, known dependency defect) a 5x4x3 and a 33x3 grid, 3x3 grid + 1 duplicate; queries = data points, cell centres, off-grid and outside points; k in {1,2,5}; radii {0,0.3,0.75,1.2,1.5,2.1,2.5} (boundary hits not judged); PartialKdTree over 5 index lists (subsets, permuted and reversed full-length lists); Poisson disk over the same clouds, 6 working lists x radii {0.5,1.2,1.5,2.1}; hulls of 6 integer point sets, 4 simple polygons in both orientations; mesh sampling on 5 meshes (2 with a zero-area face), uniform n=3000, dense spacing {0.3,0.45,4}, Poisson radius {0.4,0.9}; ball pivot (radius 2) on a 12-point ring + an extra point at pivot angle {0.05,1e-2,3e-4}");
+    let mut r = Report::new("k-d trees: 7x7 2D grid + 4 duplicates, 5x5x2 3D grid + 3 duplicates, and (tagged, known dependency defect) a 5x4x3 and a 33x3 grid, 3x3 grid + 1 duplicate; queries = data points, cell centres, off-grid and outside points; k in {1,2,5}; radii {0,0.3,0.75,1.2,1.5,2.1,2.5} (hits within 1e-9 of the boundary not judged) and, at every data point, the exact-tie radii {1,2,5} (7x7), {1,2} (3x3), {1,2,3} (5x5x2) judged as the open ball d < r; PartialKdTree over 5 index lists (subsets, permuted and reversed full-length lists); Poisson disk over the same clouds, 6 working lists x radii {0.5,1.2,1.5,2.1}; hulls of 6 integer point sets, 4 simple polygons in both orientations, 6 outlines with exactly 3, 4, 5 hull vertices x every start vertex x both orientations; mesh sampling on 5 meshes (2 with a zero-area face), uniform n=3000, dense spacing {0.3,0.45,4}, Poisson radius {0.4,0.9}, dense / Poisson also on 4 meshes with a positive-area sliver face that has no computable normal (|ab x ac| = 2^-54) before faces of other orientations; ball pivot (radius 2) on a 12-point ring + an extra point at pivot angle {0.05,1e-2,3e-4}");
     // k-d trees
     let c2 = cloud2(7, 7, &[0, 10, 24, 48]);
     search_checks(&mut r, "", "7x7 grid + duplicates of points 0, 10, 24, 48", &c2, &queries2(&c2, 7, 7));
@@ -367,6 +477,10 @@ pub fn run() -> Option<Report> {
     search_checks(&mut r, "", "3x3 grid + a duplicate of point 4", &c2s, &queries2(&c2s, 3, 3));
     let c3 = cloud3(5, 5, 2, &[0, 17, 47]);
     search_checks(&mut r, "", "5x5x2 grid + duplicates of points 0, 17, 47", &c3, &queries3(&c3, 5, 5, 2));
+    // within(r) with exact ties (unit grids, integer radii; 3-4-5 triples in the 7x7 grid, 1-2-2 triples in the 5x5x2 grid)
+    tie_checks(&mut r, "7x7 grid + duplicates of points 0, 10, 24, 48", &c2, &[1.0, 2.0, 5.0]);
+    tie_checks(&mut r, "3x3 grid + a duplicate of point 4", &c2s, &[1.0, 2.0]);
+    tie_checks(&mut r, "5x5x2 grid + duplicates of points 0, 17, 47", &c3, &[1.0, 2.0, 3.0]);
     // Poisson disk
     poisson_checks(&mut r, "", "7x7 grid + duplicates of points 0, 10, 24, 48", &c2);
     poisson_checks(&mut r, "", "3x3 grid + a duplicate of point 4", &c2s);
@@ -389,6 +503,17 @@ pub fn run() -> Option<Report> {
     direction_checks(&mut r, "L-shape", &ell);
     direction_checks(&mut r, "8-point star", &star);
     direction_checks(&mut r, "triangle", &tri);
+    // hulls with exactly 3, 4, 5 vertices: every start vertex, both orientations
+    let tri_star = [Point2::new(0.0, 0.0), Point2::new(4.0, 1.0), Point2::new(8.0, 0.0), Point2::new(5.0, 3.0), Point2::new(4.0, 8.0), Point2::new(3.0, 3.0)];
+    let square = [Point2::new(0.0, 0.0), Point2::new(4.0, 0.0), Point2::new(4.0, 4.0), Point2::new(0.0, 4.0)];
+    let dented = [Point2::new(0.0, 0.0), Point2::new(4.0, 0.0), Point2::new(4.0, 4.0), Point2::new(2.0, 3.0), Point2::new(0.0, 4.0)];
+    let pentagon = [Point2::new(0.0, 0.0), Point2::new(4.0, 0.0), Point2::new(5.0, 3.0), Point2::new(2.0, 5.0), Point2::new(-1.0, 3.0)];
+    direction_rotation_checks(&mut r, "triangle", &tri, 3);
+    direction_rotation_checks(&mut r, "three-pointed star (6 vertices, 3 on the hull)", &tri_star, 3);
+    direction_rotation_checks(&mut r, "square", &square, 4);
+    direction_rotation_checks(&mut r, "square with a dent (5 vertices, 4 on the hull)", &dented, 4);
+    direction_rotation_checks(&mut r, "convex pentagon", &pentagon, 5);
+    direction_rotation_checks(&mut r, "L-shape (6 vertices, 5 on the hull)", &ell, 5);
     // mesh sampling
     sampling_checks(&mut r);
     // ball pivoting
